@@ -14,7 +14,7 @@ import session as S
 FACET_OPS = {
     "C01": {35, 38},
     "C02": {41, 42, 43},
-    "C03": {33, 37, 38},
+    "C03": {33, 37, 38, 46},
     "C04": {20, 21, 23, 36},
     "C05": {24, 25},
     "C06": {22, 21},
@@ -165,6 +165,7 @@ def shrink(cmds, metas, groups, prop, signature, budget=60, seconds=45):
 def history(seed, cfg):
     """one generated history. cfg: dict(nw, mix, focus, depth, backend, weird, observe_p)"""
     rng = random.Random(seed)
+    G.WEIRD = cfg.get("weird", 0.15)
     s = S.Session(rng, cfg.get("backend", "f"))
     stats = Counter()
     try:
